@@ -41,6 +41,10 @@ PROPS = {
     "C14": sysprop(["C14"], ["adapters", "cancelable", "mixed"], 250, 4000, GEN_RULE),
     "C16": sysprop(["C16"], ["mixed", "local", "default"], 250, 4000, GEN_RULE),
     "C17": sysprop(["C17"], ["mixed", "local", "default"], 250, 4000, GEN_RULE),
+    "C18": sysprop(["C18"], ["mixed", "local", "default", "adapters"], 150, 3000,
+                   GEN_RULE + "; C18 compares times: order of all time points of a report against the model's logical clock, "
+                   "durations against the wall-clock bracket of the calls that started/finished the span (20us + 2% slack), "
+                   "begin times against the wall-clock window of the creating call (50 ms slack)"),
     "C19": {"coq": ["C19"], "streams": [S.jaeger_stream], "replay_sub": "jaeger",
             "rule": "record batches: random records (boundary ids incl. top bit set, 0, max; random u64 times; UTF-8 names/keys/values "
                     "with multi-byte, NUL and quote characters; 0-3 events with properties), byte-by-byte sweeps of one span across "
